@@ -15,7 +15,9 @@ RULE = ("random arrays (1-4 dims, dtype bool/int/float/object) x per-dim index k
         "{a[t]=v, put, put(axis=), put({dim:}), .loc, .ix, .iloc, put(indexing=position)}; block 'casttable' enumerates all 16 "
         "(array kind, RHS kind) pairs x scalar/array RHS x 3 index kinds completely. class = (array kind, rhs kind, rhs form, cast, inplace, "
         "spelling, index kinds); trivial = nothing")
-ANCHORS = ["bases._setitem", "dimarraycls._setvalues_ortho", "dimarraycls._setvalues_bool", "indexing._maybe_cast_type"]
+ANCHORS = ["bases._setitem", "dimarraycls._setvalues_ortho", "dimarraycls._setvalues_bool", "indexing._maybe_cast_type", "bases.__setitem__"]
+# entry points the workload calls itself; the other anchors are helpers behind them (counted as evidence only)
+ANCHORS_REQUIRED = ["bases.__setitem__"]
 FLOORS = {"quick": {"evaluations": 2000, "distinct": 500, "outcome:state-compared": 1500, "outcome:readback-compared": 1000},
           "thorough": {"evaluations": 50000, "distinct": 2000}}
 SPELLINGS = ['setitem', 'put', 'put', 'put_axis', 'put_dict', 'loc', 'ix', 'iloc', 'put_pos', 'ndmask']
